@@ -39,7 +39,11 @@ func runC12(c *Ctx) {
 		c.R.HarnessError("C12 build (rewriter / overlay / explorer) failed: " + err.Error() + "\n" + trunc(string(out), 3000))
 		return
 	}
-	bins := []string{"/verif/out/bin/check12", "/verif/out/bin/check12race"}
+	suf := ""
+	if r := os.Getenv("VERIF_REPO"); r != "" && r != "/repo" {
+		suf = strings.ReplaceAll(r, "/", "_")
+	}
+	bins := []string{"/verif/out/bin/check12" + suf, "/verif/out/bin/check12race" + suf}
 	if c.Replay != nil {
 		var rc struct {
 			Bin      string `json:"bin"`
@@ -119,7 +123,7 @@ func runC12(c *Ctx) {
 			mu.Lock()
 			defer mu.Unlock()
 			kind := "schedules"
-			if strings.HasSuffix(j.bin, "race") {
+			if strings.Contains(j.bin, "check12race") {
 				kind = "schedules+race-detector"
 			}
 			name := fmt.Sprintf("[%s] %s", kind, j.name)
